@@ -66,3 +66,23 @@ pub fn parse_constraints(
         Err(_) => Err("parse error".to_string()),
     }
 }
+
+pub fn format_alphabet_annotations(
+    string_type: CharacterStringType,
+    constraints: &[crate::intermediate::constraints::Constraint],
+) -> Result<String, String> {
+    rasn()
+        .format_alphabet_annotations(string_type, constraints)
+        .map(|t| t.to_string())
+        .map_err(|e| e.to_string())
+}
+
+pub fn format_range_annotations(
+    signed: bool,
+    constraints: &[crate::intermediate::constraints::Constraint],
+) -> Result<String, String> {
+    rasn()
+        .format_range_annotations(signed, constraints)
+        .map(|t| t.to_string())
+        .map_err(|e| e.to_string())
+}
